@@ -27,6 +27,18 @@ fn token_case(cs: &mut Cases, s: &str) {
         let d = conjure_serde::json::server_from_str::<BearerToken>(&doc).ok().map(|t| conjure_serde::json::to_string(&t).unwrap());
         let d = d.map(|j| serde_json::from_str::<String>(&j).unwrap());
         let e = conjure_serde::json::client_from_str::<BearerToken>(&doc).ok().map(|t| t.into_string());
+        // sources that cannot lend a borrowed string: a reader, the dynamic `any`, Smile
+        let f = conjure_serde::json::server_from_reader::<_, BearerToken>(doc.as_bytes()).ok().map(|t| t.into_string());
+        let g = conjure_object::Any::new(&owned).ok().and_then(|x| x.deserialize_into::<BearerToken>().ok()).map(|t| t.into_string());
+        let h = conjure_serde::smile::to_vec(&owned).ok().and_then(|b| conjure_serde::smile::client_from_slice::<BearerToken>(&b).ok()).map(|t| t.into_string());
+        let others = [("json reader", f), ("any", g), ("smile", h)];
+        let e = match others.iter().find(|(_, x)| *x != e) {
+            Some((n, x)) if d == e => {
+                // report the odd one out through `e` so that the comparison below names it
+                return (a, b, c, d, x.clone().map(|v| format!("{} [via {}]", v, n)).or(Some(format!("<rejected via {}>", n))).filter(|_| true));
+            }
+            _ => e,
+        };
         (a, b, c, d, e)
     });
     let note = format!("bearer token {:?}", s);
@@ -104,6 +116,9 @@ fn rid_case(cs: &mut Cases, s: &str) {
         let doc = serde_json::to_string(&owned).unwrap();
         let d = rid_view(conjure_serde::json::server_from_str::<ResourceIdentifier>(&doc).ok());
         let e = rid_view(conjure_serde::json::client_from_str::<ResourceIdentifier>(&doc).ok());
+        let f = rid_view(conjure_serde::json::server_from_reader::<_, ResourceIdentifier>(doc.as_bytes()).ok());
+        let g = rid_view(conjure_object::Any::new(&owned).ok().and_then(|x| x.deserialize_into::<ResourceIdentifier>().ok()));
+        let e = if f != e { f } else if g != e { g } else { e };
         let plain = ResourceIdentifier::from_str(&owned).ok().map(|r| (r.to_plain(), conjure_serde::json::to_string(&r).unwrap()));
         (a, b, c, d, e, plain, doc)
     });
